@@ -10,8 +10,8 @@ import (
 type step struct {
 	Op    string      `json:"op"`
 	Room  int         `json:"room,omitempty"`  // 1-based room number
-	Label string      `json:"label,omitempty"` // names the call started by join/rejoin/leave; referenced by await/cancel
-	N     int         `json:"n,omitempty"`     // seen/error: the n-th request for the room's occupant address
+	Label string      `json:"label,omitempty"` // names the call started by join/rejoin/leave; await/cancel/seen/error refer to it
+	N     int         `json:"n,omitempty"`
 	Cond  string      `json:"cond,omitempty"`
 	Must  bool        `json:"must,omitempty"` // await: by then the answer was sent, the call has to return
 	Inv   *inviteSpec `json:"invite,omitempty"`
@@ -70,7 +70,7 @@ func (s *story) joinPhase(op string) (in bool) {
 	case v < 8: // the room answers with the self-presence
 		s.shape = append(s.shape, 'J')
 		l := s.launch(op)
-		s.add(step{Op: "seen", N: s.nreq})
+		s.add(step{Op: "seen", Label: l})
 		if r.Intn(2) == 0 {
 			// other occupants first, as a real room does; the join must stay pending
 			for k := 0; k <= r.Intn(3); k++ {
@@ -97,25 +97,25 @@ func (s *story) joinPhase(op string) (in bool) {
 			s.add(step{Op: "barrier"})
 		}
 		l := s.launch(op)
-		s.add(step{Op: "seen", N: s.nreq})
+		s.add(step{Op: "seen", Label: l})
 		s.add(step{Op: "self"})
 		s.add(step{Op: "await", Label: l, Must: true})
 		return true
 	case v < 13: // the room refuses
 		s.shape = append(s.shape, 'X')
 		l := s.launch(op)
-		s.add(step{Op: "seen", N: s.nreq})
+		s.add(step{Op: "seen", Label: l})
 		if r.Intn(3) == 0 {
 			s.add(step{Op: "other"})
 		}
-		s.add(step{Op: "error", N: s.nreq, Cond: roomErrors[r.Intn(len(roomErrors))][1]})
+		s.add(step{Op: "error", Label: l, Cond: roomErrors[r.Intn(len(roomErrors))][1]})
 		s.add(step{Op: "await", Label: l, Must: true})
 		return false
 	case v < 16: // the caller gives up
 		s.shape = append(s.shape, 'C')
 		l := s.launch(op)
 		if r.Intn(2) == 0 {
-			s.add(step{Op: "seen", N: s.nreq})
+			s.add(step{Op: "seen", Label: l})
 		}
 		if r.Intn(3) == 0 {
 			s.add(step{Op: "other"})
@@ -124,14 +124,14 @@ func (s *story) joinPhase(op string) (in bool) {
 		s.add(step{Op: "await", Label: l, Must: true})
 		if r.Intn(2) == 0 {
 			// the room lets us in after all: too late for the call
-			s.add(step{Op: "seen", N: s.nreq})
+			s.add(step{Op: "seen", Label: l})
 			s.add(step{Op: "self"})
 		}
 		return false
 	case v < 18: // cancellation and self-presence race
 		s.shape = append(s.shape, 'R')
 		l := s.launch(op)
-		s.add(step{Op: "seen", N: s.nreq})
+		s.add(step{Op: "seen", Label: l})
 		if r.Intn(2) == 0 {
 			s.add(step{Op: "self"})
 			s.add(step{Op: "cancel", Label: l})
@@ -147,13 +147,13 @@ func (s *story) joinPhase(op string) (in bool) {
 	default: // error and self-presence both arrive
 		s.shape = append(s.shape, 'B')
 		l := s.launch(op)
-		s.add(step{Op: "seen", N: s.nreq})
+		s.add(step{Op: "seen", Label: l})
 		if r.Intn(2) == 0 {
-			s.add(step{Op: "error", N: s.nreq, Cond: roomErrors[r.Intn(len(roomErrors))][1]})
+			s.add(step{Op: "error", Label: l, Cond: roomErrors[r.Intn(len(roomErrors))][1]})
 			s.add(step{Op: "self"})
 		} else {
 			s.add(step{Op: "self"})
-			s.add(step{Op: "error", N: s.nreq, Cond: roomErrors[r.Intn(len(roomErrors))][1]})
+			s.add(step{Op: "error", Label: l, Cond: roomErrors[r.Intn(len(roomErrors))][1]})
 		}
 		s.add(step{Op: "await", Label: l, Must: true})
 		s.add(step{Op: "kick"})
@@ -193,22 +193,22 @@ func (s *story) inRoom() (stillIn bool) {
 	case v < 4: // leave, the room confirms
 		s.shape = append(s.shape, 'L')
 		l := s.launch("leave")
-		s.add(step{Op: "seen", N: s.nreq})
+		s.add(step{Op: "seen", Label: l})
 		s.add(step{Op: "unavail"})
 		s.add(step{Op: "await", Label: l, Must: true})
 		return false
 	case v < 5: // leave, the room answers with an error
 		s.shape = append(s.shape, 'l')
 		l := s.launch("leave")
-		s.add(step{Op: "seen", N: s.nreq})
-		s.add(step{Op: "error", N: s.nreq, Cond: roomErrors[r.Intn(len(roomErrors))][1]})
+		s.add(step{Op: "seen", Label: l})
+		s.add(step{Op: "error", Label: l, Cond: roomErrors[r.Intn(len(roomErrors))][1]})
 		s.add(step{Op: "await", Label: l, Must: true})
 		return true
 	case v < 6: // leave, given up
 		s.shape = append(s.shape, 'c')
 		l := s.launch("leave")
 		if r.Intn(2) == 0 {
-			s.add(step{Op: "seen", N: s.nreq})
+			s.add(step{Op: "seen", Label: l})
 		}
 		s.add(step{Op: "cancel", Label: l})
 		s.add(step{Op: "await", Label: l, Must: true})
@@ -239,7 +239,7 @@ func genStory(r *rand.Rand, room int) *story {
 			// Channel.Join after having left: the caller gives up after a while
 			s.shape = append(s.shape, 'o')
 			l := s.launch("rejoin")
-			s.add(step{Op: "seen", N: s.nreq})
+			s.add(step{Op: "seen", Label: l})
 			if r.Intn(2) == 0 {
 				s.add(step{Op: "self"})
 				s.add(step{Op: "barrier"})
